@@ -40,8 +40,3 @@ Definition state_map : list (str * str) := [
 Definition trigger_EXECUTOR : N := 0.
 Definition trigger_DEVICE_INTENTIONAL : N := 1.
 Definition trigger_DEVICE_ERROR : N := 2.
-(* package executor (message handler): every response of <task>.Transition(cmd) is marshalled and
-   sent to the core as it is (read by data flow: never assigned, no field assigned, address not taken,
-   handed only to json.Marshal / the logger / followed unexported functions of the package) *)
-Definition transition_handler_sites : N := 1.
-Definition transition_handler_forwards : bool := true.
